@@ -514,6 +514,32 @@ func (c *Ctx) Dom(name string, f *ssa.Function, targets []Site, what string, gua
 
 // ---- exits ---------------------------------------------------------------------
 
+// retVal returns the idx-th returned value, resolving the defer spill
+// (`*res = v; rundefers; t = *res; return t`) to the value stored in the
+// return's own block.
+func retVal(ret *ssa.Return, idx int) ssa.Value {
+	v := ret.Results[idx]
+	u, ok := v.(*ssa.UnOp)
+	if !ok || u.Op != token.MUL {
+		return v
+	}
+	a, ok := u.X.(*ssa.Alloc)
+	if !ok {
+		return v
+	}
+	instrs := ret.Block().Instrs
+	sawDefers := false
+	for i := len(instrs) - 1; i >= 0; i-- {
+		if _, ok := instrs[i].(*ssa.RunDefers); ok {
+			sawDefers = true
+		}
+		if st, ok := instrs[i].(*ssa.Store); ok && st.Addr == a && sawDefers {
+			return st.Val
+		}
+	}
+	return v
+}
+
 // knownNonNil: v is certainly a non-nil error at the given return.
 func knownNonNil(v ssa.Value, ret *ssa.Return, depth int) bool {
 	if depth > 4 {
@@ -582,7 +608,7 @@ func (c *Ctx) SuccessReturns(f *ssa.Function) []Site {
 	for _, r := range c.Returns(f) {
 		ret := r.Instr.(*ssa.Return)
 		if res.Len() > 0 && isErrorType(res.At(res.Len()-1).Type()) {
-			if knownNonNil(ret.Results[res.Len()-1], ret, 0) {
+			if knownNonNil(retVal(ret, res.Len()-1), ret, 0) {
 				continue
 			}
 		}
@@ -596,7 +622,7 @@ func (c *Ctx) ReturnsWhere(f *ssa.Function, idx int, p VPat) []Site {
 	var out []Site
 	for _, r := range c.Returns(f) {
 		ret := r.Instr.(*ssa.Return)
-		if idx < len(ret.Results) && p(ret.Results[idx]) {
+		if idx < len(ret.Results) && p(retVal(ret, idx)) {
 			out = append(out, r)
 		}
 	}
@@ -609,7 +635,7 @@ func (c *Ctx) ReturnsNot(f *ssa.Function, idx int, p VPat) []Site {
 	var out []Site
 	for _, r := range c.Returns(f) {
 		ret := r.Instr.(*ssa.Return)
-		if idx < len(ret.Results) && !p(ret.Results[idx]) {
+		if idx < len(ret.Results) && !p(retVal(ret, idx)) {
 			out = append(out, r)
 		}
 	}
